@@ -99,7 +99,10 @@ async def evaluate(mpc, e, idx, arg):
             rets.append(r)
         else:
             o = await mpc.output(r)
-            rets.append(int(o) if not isinstance(o, float) else int(round(o)))
+            v = int(o) if not isinstance(o, float) else int(round(o))
+            if e['stype'] == 'fld' and v > 5:
+                v -= 11           # field elements are unsigned: find() returns -1 = 10 in GF(11)
+            rets.append(v)
     content = [await mpc.output(x) for x in list(s)]
     return [[int(round(float(c))) if not hasattr(c, 'value') else int(c.value) for c in content], rets]
 
@@ -165,7 +168,7 @@ def run(ctx):
         for (m, t, no_prss, frac) in worlds:
             sub = cases if frac >= 1 else [c for c in cases if rnd.random() < frac or c.get('walk')]
             tag = f'slm{m}t{t}{"n" if no_prss else "p"}'
-            st, results, errors = run_batch(sub, evaluate, m, t, seed=ctx.seed + 1, no_prss=no_prss, chunk=25, max_steps=8000000)
+            st, results, errors = run_batch(sub, evaluate, m, t, seed=ctx.seed + 1, no_prss=no_prss, chunk=25, max_steps=60000000)
             if st != 'done' or any(errors):
                 ctx.violation('C31:run:not-complete', {'config': tag, 'status': st, 'errors': sorted({e[0][:90] for e in errors if e})[:3]})
                 continue
